@@ -66,6 +66,15 @@ def generate(rng, tier):
         opt = lambda: rng.choice([0, 0, 1, 1, 2, 3, rng.randint(0, 2 * L + 3), -1, -2, L, L + 1])
         cases.append({"lines": [l.encode().hex() for l in lines], "pattern": pat.encode().hex(), "invert": rng.random() < 0.35,
                       "before": opt(), "after": opt(), "max": opt(), "via": "api"})
+    # all three options positive, more matches than max, gaps around the after/before distances
+    for i in range(120 if tier == "quick" else 2000):
+        m, a, b = rng.randint(1, 3), rng.randint(1, 3), rng.randint(1, 4)
+        lines = []
+        for h in range(m + rng.randint(1, 2)):
+            lines += ["info"] * rng.randint(0, a + b + 3) + ["ERROR %d" % h]
+        lines += ["info"] * rng.randint(0, a + 2)
+        cases.append({"lines": [l.encode().hex() for l in lines], "pattern": b"ERROR".hex(), "invert": False,
+                      "before": b, "after": a, "max": m, "via": "api" if i % 10 else "cli"})
     ncli = 40 if tier == "quick" else 400
     for i in range(ncli):
         L = rng.choice([1, 3, 6, 10, 25])
